@@ -39,7 +39,7 @@ def scratch_setup():
     open(f'{SCR}/harness/.cargo/config.toml', 'w').write(f'[net]\noffline = true\n[build]\ntarget-dir = "{SCR}/target"\n')
 
 def scratch_check(cid, tier='quick'):
-    env = {'CARGO_NET_OFFLINE': 'true', 'CARGO_TARGET_DIR': f'{SCR}/target', 'VERIF_OUT': OUT,
+    env = {'CARGO_NET_OFFLINE': 'true', 'CARGO_TARGET_DIR': f'{SCR}/target', 'VERIF_OUT': OUT, 'VERIF_NO_REGRESSIONS': '1',
            'VERIF_CLI_BIN': f'{SCR}/target/release/islamic_prayer_times'}
     b = sh('cargo build --release --offline 2>&1 | tail -3', cwd=f'{SCR}/harness', env=env)
     if cid == 'C19':
@@ -109,6 +109,15 @@ def main():
             # 2. my checks
             checks = [f'C{i:02d}' for i in range(1, 21)] if allc else [pid]
             meta['checks'] = {}
+            old = f'{VERIF}/seeded/{pid}-{tag}{n}/meta.json'
+            if os.path.exists(old):
+                try:
+                    for k, v in json.load(open(old)).get('checks', {}).items():
+                        if k not in checks:
+                            v['from_earlier_run'] = True
+                            meta['checks'][k] = v
+                except Exception:
+                    pass
             target_repo = f'{SCR}/repo' if scratch else '/repo'
             r = sh(f'git -C {target_repo} apply {patch}')
             try:
@@ -116,14 +125,14 @@ def main():
                     print(f'{pid}-{n}: does not apply to {target_repo}'); continue
                 for cid in checks:
                     t0 = time.time()
-                    c = scratch_check(cid) if scratch else sh(f'{VERIF}/check {cid} quick', env={'VERIF_OUT': OUT})
+                    c = scratch_check(cid) if scratch else sh(f'{VERIF}/check {cid} quick', env={'VERIF_OUT': OUT, 'VERIF_NO_REGRESSIONS': '1'})
                     sig = [l.strip() for l in c.stdout.splitlines() if l.strip().startswith('signature:')]
                     meta['checks'][cid] = {'exit': c.returncode, 'signature': sig[:1], 'wall_s': round(time.time() - t0, 1)}
                     if cid == pid and c.returncode == 1:
                         for l in c.stdout.splitlines():
                             if l.startswith('VIOLATION') and 'replay=' in l:
                                 rp = l.split('replay=')[1].strip()
-                                if os.path.exists(rp):
+                                if os.path.exists(rp) and not os.path.abspath(rp).startswith(f'{VERIF}/regressions/'):
                                     os.makedirs(f'{VERIF}/regressions/{cid}', exist_ok=True)
                                     shutil.copy(rp, f'{VERIF}/regressions/{cid}/seeded_{pid}-{tag}{n}.json')
             finally:
